@@ -91,7 +91,7 @@ func (p *Program) VerifyFunc(fc *FuncContract) (res *FuncResult) {
 		}
 	}
 	for name := range fc.AtCall {
-		if p.Funcs[name] == nil {
+		if p.Funcs[name] == nil && !p.isIfaceMethodName(name) {
 			res.Err = fmt.Errorf("%s:%d: atcall names an unknown function %s", fc.File, fc.Line, name)
 			return
 		}
